@@ -114,7 +114,8 @@ func (db *DB) Select(query interface{}, args ...interface{}) (tx *DB) {
 
 	switch v := query.(type) {
 	case []string:
-		tx.Statement.Selects = v
+		tx.Statement.Selects = make([]string, len(v))
+		copy(tx.Statement.Selects, v)
 
 		for _, arg := range args {
 			switch arg := arg.(type) {
